@@ -23,6 +23,17 @@ func execSession(prop string) func(r *simkit.Run) {
 		}
 		defer s.close()
 		for i := range r.Plan.Steps {
+			if s.stopRun {
+				r.Probe("run-ends-after-half-done-operation-on-hard-linked-tree")
+				break
+			}
+			if len(s.excusedOrphans) > 0 {
+				// an injected store failure inside a delete that was told to ignore errors has left entries without a
+				// parent (excused). What the filer does with such a store afterwards is not something the statement
+				// speaks about: the run ends here, judged up to this point.
+				r.Probe("run-ends-after-excused-orphan")
+				break
+			}
 			if !s.step(&r.Plan.Steps[i]) {
 				return
 			}
@@ -301,6 +312,9 @@ func genC20(tier string, seed uint64, idx int) *simkit.Plan {
 	rng := simkit.NewRand(seed)
 	p := &simkit.Plan{Engine: "filersim"}
 	p.SetCS("store", storeFor(idx))
+	if rng.Chance(1, 4) {
+		p.SetC("fidstruct", 1)
+	}
 	p.SetC("sig", int64(1+rng.Intn(1<<30)))
 	p.SetC("gc", 1)
 	if (idx/3)%4 == 1 {
@@ -348,7 +362,7 @@ func genC20(tier string, seed uint64, idx int) *simkit.Plan {
 			a := append(fileArgs(), "p", pick(), "keep", !overwrites || rng.Chance(1, 2))
 			p.Add(simkit.St("mk", rng.Uint64(), a...))
 		case 1:
-			a := append(fileArgs(), "p", pick(), "keep", !overwrites || rng.Chance(1, 2))
+			a := append(fileArgs(), "p", pick(), "keep", !overwrites || rng.Chance(1, 2), "keepold", rng.Intn(3)*rng.Intn(2))
 			p.Add(simkit.St("up", rng.Uint64(), a...))
 		case 2:
 			p.Add(simkit.St("app", rng.Uint64(), "p", pick()))
